@@ -26,7 +26,7 @@ where
         cases,
         failure_persistence: None,
         rng_seed: RngSeed::Fixed(seed.wrapping_mul(0x9E37_79B9_7F4A_7C15) ^ salt),
-        max_shrink_iters: 200_000,
+        max_shrink_iters: 50_000,
         max_local_rejects: 1_000_000,
         max_global_rejects: 1_000_000,
         ..Config::default()
